@@ -44,6 +44,7 @@ type Evidence struct {
 	SelftestMismatches int
 	CrossJobs          int
 	PositiveReplays    int
+	NotApplicable      []string
 }
 
 type groupEv struct {
